@@ -310,7 +310,46 @@ func (fr *Frame) staticCall(st *State, g string, site ssa.Instruction, callee *s
 	var res []string
 	switch {
 	case fc != nil && fc.Kind == "func" && !fc.Inline:
+		// pointers into enclosing objects (&x.f where f is a struct) passed to a contracted callee:
+		// copy-in / copy-out through a temporary object of the pointee type
+		type cio struct {
+			loc  *Loc
+			addr string
+			t    types.Type
+		}
+		var cios []cio
+		args = append([]string(nil), args...)
+		for i, av := range argVals {
+			if i >= len(args) {
+				break
+			}
+			l, ok := fr.locs[av]
+			if !ok {
+				continue
+			}
+			pt, isPtr := av.Type().Underlying().(*types.Pointer)
+			if !isPtr {
+				continue
+			}
+			if _, isStruct := pt.Elem().Underlying().(*types.Struct); !isStruct {
+				continue
+			}
+			if len(l.path) == 0 && l.addr != "" {
+				continue // a whole heap object: its address is the pointer
+			}
+			var a string
+			st, a = fr.alloc(st)
+			hv := vc.heapVar(pt.Elem())
+			st = fr.setVar(st, hv, fmt.Sprintf("(store %s %s %s)", st.get(hv), a, fr.load(st, l)))
+			args[i] = a
+			cios = append(cios, cio{l, a, pt.Elem()})
+			vc.note("interior pointer argument of %s: copy-in/copy-out through a temporary object", cname)
+		}
 		st2, res = fr.applyContract(st, g, fc, callee, args, pos, site)
+		for _, c := range cios {
+			hv := vc.heapVar(c.t)
+			st2 = fr.store(st2, c.loc, fmt.Sprintf("(select %s %s)", st2.get(hv), c.addr))
+		}
 	case fc != nil && fc.Kind != "func" && fc.Pure && sig.Variadic() && fr.variadicElems(st, argVals) != nil:
 		// pure variadic function (filepath.Join): uninterpreted function of the individual elements
 		elems := fr.variadicElems(st, argVals)
@@ -612,6 +651,9 @@ func (fr *Frame) applyAssumed(st *State, g string, fc *FuncContract, name string
 	}
 	// effects
 	for _, eu := range fc.EmitsEff {
+		if eu.Post {
+			continue
+		}
 		var eargs []string
 		ed := vc.eng.cs.Effects[eu.Name]
 		if ed == nil {
@@ -676,7 +718,36 @@ func (fr *Frame) applyAssumed(st *State, g string, fc *FuncContract, name string
 		t := fr.evalClause(c, env, "ensures of "+fc.Name)
 		vc.assume(implies(g, t))
 	}
+	st = fr.postEffects(st, fc, env)
 	return st, res
+}
+
+// postEffects emits the ghost effects a contract attaches to the post-state.
+func (fr *Frame) postEffects(st *State, fc *FuncContract, env *Env) *State {
+	vc := fr.vc
+	for _, eu := range fc.EmitsEff {
+		if !eu.Post {
+			continue
+		}
+		ed := vc.eng.cs.Effects[eu.Name]
+		if ed == nil {
+			panic(unsupported("undeclared effect " + eu.Name))
+		}
+		env.st = st
+		var eargs []string
+		for i, a := range eu.Args {
+			want := vc.eng.resolveType(ed.Params[i].T, vc.pkg)
+			eargs = append(eargs, env.coerce(env.eval(a, want), want).term)
+		}
+		if eu.When != nil {
+			cond := env.evalBool(eu.When)
+			ns := fr.emitEffect(st, eu.Name, eargs)
+			st = mergeStates(vc, []mergeIn{{cond, ns}, {not(cond), st}})
+		} else {
+			st = fr.emitEffect(st, eu.Name, eargs)
+		}
+	}
+	return st
 }
 
 func shortFile(f string) string {
@@ -889,6 +960,7 @@ func (fr *Frame) applyContract(st *State, g string, fc *FuncContract, callee *ss
 		t := fr.evalClause(c, env, "ensures of "+fc.Name)
 		vc.assume(implies(g, t))
 	}
+	st = fr.postEffects(st, fc, env)
 	return st, res
 }
 
